@@ -66,7 +66,10 @@ func pointRectDistGeodeticRad(φq, λq, φl, λl, φh, λh float64) float64 {
 		cosφa := math.Cos(φa)
 		cosφb := math.Cos(φb)
 
-		return 2 * math.Asin(math.Sqrt(sinΔφ*sinΔφ+sinΔλ*sinΔλ*cosφa*cosφb))
+		// for antipodal points rounding can lift the sum above 1, and the
+		// arc sine of that is NaN
+		a := math.Min(1, sinΔφ*sinΔφ+sinΔλ*sinΔλ*cosφa*cosφb)
+		return 2 * math.Asin(math.Sqrt(a))
 	}
 
 	// Simple case, point or invalid rect
